@@ -790,3 +790,54 @@ def c05_l7(ctx):
                 n += 1
                 yield bad("C05-L7", "%s:%s" % (short(f.impl_self_adt or f.root or f.norm), cal.split("::")[-1]) + ("#%d" % n if n > 1 else ""), at(f, t["span"]["line"]), "%s in an encoder alters the value being written: distinct PDUs get the same encoding (decode(encode(v)) != v, and the CRC check over the re-encoding accepts a corrupted PDU)" % cal)
     yield ok("C05-L7", "encoders:verbatim", "%d encode functions" % len(fns), "%d value-altering calls" % n, nontrivial=(n == 0))
+
+
+# ================================================================ C05-L8: presence of the EOF fault location
+@rule("C05", "C05-L8", 2, "EndOfFile::decode reads the fault-location TLV on every condition other than 'No error' and on none else (CCSDS 727.0-B-5 table 5-6: omitted only for 'No error'); the encoder writes it whenever it is present, so any other rule drops or invents the field for some condition", also=("C15",))
+def c05_l8(ctx):
+    from df import Flow
+
+    f = ctx.one("C05-L8", "<pdu::ops::EndOfFile as pdu::header::FSSEncode>::decode")
+    ctys = {vn for vn, l, pj in f.var_places if not pj and "Condition" in (f.locals[l]["ty"] or "")}
+    fl = Flow(ctx.prog, ctx.mods, f, lambda k: k[0] == "val" and k[1].split("@")[0].split(".")[0] in ctys, user_stop=True)
+
+    def cond_state(w):
+        """('is', {variants}) / ('not', {variants}) facts on a Condition-valued place in world w."""
+        out = []
+        for k, (pos, vs) in w:
+            if k[0] == "val" and any(isinstance(v, str) and v == "NoError" for v in vs):
+                out.append((pos, vs))
+        return out
+
+    reads = []
+    for b, t in f.all_calls():
+        d, r, _ = ctx.prog.callee_of(t)
+        if (r or d or "").endswith("VariableID as pdu::header::PDUEncode>::decode") or ((r or d or "").endswith("::decode") and "VariableID" in (r or d or "")):
+            reads.append((b, t))
+    nones = []
+    for b in f.live_blocks():
+        for j, st in enumerate(f.blocks[b]["stmts"]):
+            if st["k"] == "assign" and st["rv"]["k"] == "agg" and st["rv"].get("agg") == "adt" and st["rv"].get("variant") == "None" and "VariableID" in (st["place"].get("ty") or ""):
+                nones.append((b, j, st))
+    if not reads or not nones:
+        raise Anchor("C05-L8", "the read of the fault location (VariableID::decode) and the `None` alternative in EndOfFile::decode")
+    for i, (b, t) in enumerate(reads):
+        ws = fl.at_term(b)
+        good = bool(ws) and all(any((not pos and "NoError" in vs and len(vs) == 1) or (pos and "NoError" not in vs) for pos, vs in cond_state(w)) for w in ws)
+        # ... and it is not restricted further: no other fact about the condition than `!= NoError`
+        narrowed = any(any(pos or len(vs) > 1 for pos, vs in cond_state(w)) for w in ws)
+        key = "EndOfFile::decode:fault-location-read" + ("#%d" % (i + 1) if i else "")
+        if good and not narrowed:
+            yield ok("C05-L8", key, at(f, t["span"]["line"]), "read under condition != NoError (and under nothing narrower)")
+        elif not good:
+            yield bad("C05-L8", key, at(f, t["span"]["line"]), "the fault location is read on a path where the condition may be 'No error' (an EOF without one is then rejected or mis-read)")
+        else:
+            yield bad("C05-L8", key, at(f, t["span"]["line"]), "the fault location is read only for some of the error conditions: for the others a well-formed EOF PDU loses its fault location")
+    for i, (b, j, st) in enumerate(nones):
+        ws = fl.at_stmt(b, j)
+        good = bool(ws) and all(any(pos and set(vs) == {"NoError"} for pos, vs in cond_state(w)) for w in ws)
+        key = "EndOfFile::decode:fault-location-absent" + ("#%d" % (i + 1) if i else "")
+        if good:
+            yield ok("C05-L8", key, at(f, st["span"]["line"]), "`None` only under condition == NoError")
+        else:
+            yield bad("C05-L8", key, at(f, st["span"]["line"]), "the decoder yields no fault location on a path where the condition is not known to be 'No error': an EOF PDU reporting an error loses its fault location (decode(encode(v)) != v)")
